@@ -212,6 +212,38 @@ def print_assumptions(prop_v, make_output_hint=None):
             "missing_print": missing, "raw": out[-4000:] if rc != 0 else ""}
 
 
+def coqchk(vo):
+    """Run the independent checker on one compiled file and its dependencies; parse its context summary."""
+    mod = "RV." + vo[:-3].replace("/", ".")
+    rc, out = sh(["coqchk", "-o", "-silent", "-R", ".", "RV", mod], cwd=COQ, timeout=3000)
+    axioms, unsafe = [], []
+    sect = None
+    for line in out.split("\n"):
+        m = re.match(r"^\* (.*?):\s*(.*)$", line)
+        if m:
+            sect = m.group(1)
+            rest = m.group(2).strip()
+            if sect == "Axioms" and rest and rest != "<none>":
+                axioms.append(rest.split()[0])
+            elif sect.startswith("Constants/Inductives relying") or sect.startswith("Inductives whose positivity"):
+                if rest and rest != "<none>":
+                    unsafe.append(sect + ": " + rest)
+            continue
+        t = line.strip()
+        if not t or sect is None:
+            continue
+        if sect == "Axioms":
+            axioms.append(t.split()[0])
+        elif sect.startswith("Constants/Inductives relying") or sect.startswith("Inductives whose positivity"):
+            unsafe.append(sect + ": " + t)
+    # coqchk prints fully qualified names (Coq.Logic....); the allow-list uses the names Print Assumptions prints
+    short = []
+    for a in axioms:
+        parts = a.split(".")
+        short.append(".".join(parts[-2:]) if len(parts) >= 2 else a)
+    return {"rc": rc, "axioms": sorted(set(short)), "unsafe": unsafe, "raw": out[-3000:]}
+
+
 def failing_item(make_out):
     """From coqc's error output: (file, line, enclosing statement name)."""
     m = re.search(r'File "\./([^"]+)", line (\d+), characters', make_out)
